@@ -91,7 +91,9 @@ class Index:
         return len(self._v) == 0
 
     def to_numpy(self, **kw):
-        return self._v.copy()
+        if kw.get("copy") or kw.get("dtype") is not None:
+            return self._v.copy()
+        return self._v  # a view of the index's own buffer (pandas 2 without copy-on-write): writes show through
 
     def to_list(self):
         return list(self._v)
